@@ -249,7 +249,7 @@ Proof.
   { intros g G. unfold o, construct. rewrite post_init_cur.
     set (raw := fold_left _ kw _) in *.
     assert (Er : oraw o = raw) by reflexivity.
-    replace i with (0 + i)%nat at 2 by reflexivity.
+    change (Some i) with (Some (0 + i)%nat).
     eapply cur_loop_last; try eassumption.
     - unfold raw_at in Hv. rewrite Er in Hv.
       apply (nth_error_of_nth raw i PPlaceholder). rewrite <- Er, Hl. eapply nth_error_lt. exact Hf.
